@@ -702,6 +702,18 @@ impl<'a> Gen<'a> {
                 Op::Annotate { id, target, data }
             }
             W_ANNOTATE_BATCH => {
+                if self.rng.chance(1, 3) {
+                    // the same through a file, now and then torn or malformed at its last element
+                    let n = self.rng.range(2, 4);
+                    let items = (0..n).map(|_| self.annotate_parts(m)).collect();
+                    let fault = match self.rng.below(5) {
+                        0 | 1 => FileFault::None,
+                        2 => FileFault::Truncate(self.rng.range(1, 999)),
+                        3 => FileFault::DropTarget,
+                        _ => FileFault::Garbage,
+                    };
+                    return Op::AnnotateFile { items, fault };
+                }
                 let n = self.rng.range(1, 4);
                 let items = (0..n).map(|_| self.annotate_parts(m)).collect();
                 Op::AnnotateBatch { items }
